@@ -89,7 +89,9 @@ HandleZRLE (rfbClient* client, int rx, int ry, int rw, int rh)
 	int remaining;
 	int inflateResult;
 	int toRead;
-	int min_buffer_size = rw * rh * (CPIXEL_BYTES) * 2;
+	/* 4 spare bytes behind the decompressed data: UncompressCPixel reads a
+	 * 3-byte CPIXEL as a whole CARDBPP */
+	int min_buffer_size = rw * rh * (CPIXEL_BYTES) * 2 + 4;
 
 	/* First make sure we have a large enough raw buffer to hold the
 	 * decompressed data.  In practice, with a fixed REALBPP, fixed frame
@@ -119,7 +121,7 @@ HandleZRLE (rfbClient* client, int rx, int ry, int rw, int rh)
 	client->decompStream.next_in   = ( Bytef * )client->buffer;
 	client->decompStream.avail_in  = 0;
 	client->decompStream.next_out  = ( Bytef * )client->raw_buffer;
-	client->decompStream.avail_out = client->raw_buffer_size;
+	client->decompStream.avail_out = client->raw_buffer_size - 4;
 	client->decompStream.data_type = Z_BINARY;
 
 	/* Initialize the decompression stream structures on the first invocation. */
@@ -194,7 +196,7 @@ HandleZRLE (rfbClient* client, int rx, int ry, int rw, int rh)
 		char* buf=client->raw_buffer;
 		int i,j;
 
-		remaining = client->raw_buffer_size-client->decompStream.avail_out;
+		remaining = client->raw_buffer_size-4-client->decompStream.avail_out;
 
 		for(j=0; j<rh; j+=rfbZRLETileHeight)
 			for(i=0; i<rw; i+=rfbZRLETileWidth) {
